@@ -208,6 +208,11 @@ def check(rep, ctx):
     for row in dataclass_field_invariants(ctx):
         rep.check(R_C, row["ok"], construct="codegen.generate_schema:format_dataclass_field", stmt=row["case"], message=row["message"],
                   file="codegen/generate_schema.py", line=row.get("line", 0))
+    from ..gen_tables import naming_rows
+    R_N = rep.rule("C04-c-names", "the generator's naming functions reproduce the shipped field names and package names", floor=500,
+                   necessary_because="isKRaftController must come out as is_k_raft_controller, KRaftVersionRecord as package k_raft_version_record")
+    for row in naming_rows(ctx):
+        rep.check(R_N, row["ok"], construct=row["construct"], stmt=row["stmt"], message=row["message"], file=row["file"], line=row["line"])
     rep.extra.update(modules=len(S.modules), classes=len(S.classes), reference=str(ref["build_tag"]), baseline_differences=len(diffs))
     rep.assumptions.append("the schema of the pinned commit is the generator's output for Kafka 3.9.0 (the reference is frozen from it)")
     rep.trusted_base += ["/verif/reference/schema-3.9.0.json.gz", "/verif/spec/api_pins.json", "kverif/spec.py API key table"]
